@@ -8,6 +8,7 @@ import (
 	"strconv"
 	"strings"
 	"syscall"
+	"time"
 	"unicode/utf16"
 
 	"github.com/robertkrimen/otto"
@@ -28,7 +29,8 @@ var fsKinds = []string{"undefined", "null", "boolean", "number", "string", "obje
 	"hs_group", "hs_class", "hs_backslash", "hs_quant", "hs_percent", "hs_surrogate", "hs_long", "hs_json",
 	"nested_arrays", "mixed_array", "array_of_arrays_mixed", "regexp_proto", "bound_bare", "utf16_digits", "utf16_surrogate", "fn_src_break", "dollar_nn", "date_proto", "error_proto", "string_proto", "array_proto", "function_proto", "number_proto", "boolean_proto",
 	"nonext_string_fffd", "nonext_array", "nonext_args", "sealed_fn", "frozen_string_wide", "nonext_date", "nonext_regexp",
-	"go_slice", "go_map", "go_struct", "go_array", "go_ptr_struct", "go_slice_iface", "go_func", "go_nil_slice", "go_map_int", "go_ptr_array", "go_ptr_array_iface"}
+	"go_slice", "go_map", "go_struct", "go_array", "go_ptr_struct", "go_slice_iface", "go_func", "go_nil_slice", "go_map_int", "go_ptr_array", "go_ptr_array_iface",
+	"go_chan", "go_complex", "go_nil_ptr", "go_typed_nil", "go_ptr_ptr", "go_variadic", "go_func_err", "go_func_value", "go_uint8_slice", "go_time", "go_nested", "go_bytes_array", "go_method_ptr"}
 
 // kinds used when two positions vary together (the full product of all kinds
 // would be 50x50 per function)
@@ -111,7 +113,7 @@ function __mk(kind){
   case 'frozen_string_wide': return Object.freeze(new String('\u4e2d\ud83d\ude00\ud800'));
   case 'nonext_date': return Object.preventExtensions(new Date(0));
   case 'nonext_regexp': return Object.preventExtensions(/a/g);
-  case 'go_slice': case 'go_map': case 'go_struct': case 'go_array': case 'go_ptr_struct': case 'go_slice_iface': case 'go_func': case 'go_nil_slice': case 'go_map_int': case 'go_ptr_array': case 'go_ptr_array_iface': return hgo(kind);
+  case 'go_slice': case 'go_map': case 'go_struct': case 'go_array': case 'go_ptr_struct': case 'go_slice_iface': case 'go_func': case 'go_nil_slice': case 'go_map_int': case 'go_ptr_array': case 'go_ptr_array_iface': case 'go_chan': case 'go_complex': case 'go_nil_ptr': case 'go_typed_nil': case 'go_ptr_ptr': case 'go_variadic': case 'go_func_err': case 'go_func_value': case 'go_uint8_slice': case 'go_time': case 'go_nested': case 'go_bytes_array': case 'go_method_ptr': return hgo(kind);
   case 'trap': return __mkTrap(false);
   case 'trapfn': return __mkTrap(true);
   }
@@ -148,6 +150,10 @@ type goStructT struct {
 func (g goStructT) Get() int       { return g.X }
 func (g *goStructT) Set(x int)     { g.X = x }
 func (g goStructT) String() string { return "goStructT" }
+
+type goErrT struct{}
+
+func (*goErrT) Error() string { return "typed nil error" }
 
 func (fsEngine) Name() string     { return "faultsweep" }
 func (fsEngine) Property() string { return "C02" }
@@ -226,6 +232,39 @@ func newFSRuntime() *fsRuntime {
 			gv = &[3]int32{1, 2, 3}
 		case "go_ptr_array_iface":
 			gv = &[2]interface{}{1, "a"}
+		case "go_chan":
+			gv = make(chan int, 1)
+		case "go_complex":
+			gv = complex(1, 2)
+		case "go_nil_ptr":
+			gv = (*goStructT)(nil)
+		case "go_typed_nil":
+			var e error = (*goErrT)(nil)
+			gv = e
+		case "go_ptr_ptr":
+			p := &goStructT{X: 3}
+			gv = &p
+		case "go_variadic":
+			gv = func(a int, rest ...string) int { return a + len(rest) }
+		case "go_func_err":
+			gv = func(a int) (int, error) {
+				if a > 0 {
+					return 0, errors.New("go error result")
+				}
+				return a, nil
+			}
+		case "go_func_value":
+			gv = func(v otto.Value, o *otto.Object, i interface{}) otto.Value { return v }
+		case "go_uint8_slice":
+			gv = []uint8{1, 2, 255}
+		case "go_time":
+			gv = time.Unix(86400, 0).UTC()
+		case "go_nested":
+			gv = map[string]interface{}{"a": []interface{}{1, map[string]interface{}{"b": []int{1, 2}}}, "s": goStructT{X: 1}, "p": &goStructT{X: 2}, "n": nil}
+		case "go_bytes_array":
+			gv = [4]byte{1, 2, 3, 4}
+		case "go_method_ptr":
+			gv = (&goStructT{X: 9}).Set
 		}
 		v, err := call.Otto.ToValue(gv)
 		if err != nil {
